@@ -23,6 +23,12 @@ def scalar_cases():
                 if op == "truediv" and abs(y[0]) not in (1, 2):      # keep quotients exactly representable
                     continue
                 out.append({"kind": "scalar", "op": op, "lk": lk, "rk": rk, "x": x, "y": y})
+        # comparisons with the non-finite floats (NaN compares false with everything, also with itself)
+        special = [[0, 0], [1, 0], [-1, 0]]
+        for op in CMP:
+            for x, y in itertools.product(special + [[0, 1], [3, 2], [-2, 1]], repeat=2):
+                if x[1] == 0 or y[1] == 0:
+                    out.append({"kind": "scalar", "op": op, "lk": lk, "rk": rk, "x": x, "y": y})
         for op in BITS:
             for x, y in itertools.product([[n, 1] for n in range(4)], repeat=2):
                 out.append({"kind": "scalar", "op": op, "lk": lk, "rk": rk, "x": x, "y": y})
@@ -56,6 +62,13 @@ def fiber_cases(ctx):
     for a, b in ctx.rng.sample(pairs, min(len(pairs), 300 if ctx.quick else 4096)):
         for op in ("add_ff", "mul_ff", "iadd_ff", "imul_ff"):
             out.append({"kind": "fiber", "op": op, "a": a, "b": b, "d": 2})
+    # wide fibers: 9-16 stored elements, a sparse second operand whose new coordinates fall far from the previous match
+    for _ in range(700 if ctx.quick else 6000):
+        nc = ctx.rng.randint(12, 20)
+        a = {"k": "F", "e": [[c, {"k": "L", "v": ctx.rng.choice([1, 2, 0])}] for c in range(nc) if ctx.rng.random() < 0.8]}
+        b = {"k": "F", "e": [[c, {"k": "L", "v": ctx.rng.choice([1, 2])}] for c in range(nc + 2) if ctx.rng.random() < 0.2]}
+        for op in ("add_ff", "mul_ff", "iadd_ff", "imul_ff"):
+            out.append({"kind": "fiber", "op": op, "a": a, "b": b, "shape": nc + 3})
     return out
 
 
